@@ -89,9 +89,9 @@ def run(s):
             ro_txt = gen.rand_ro(rng, n_stories=rng.randint(2, 5), pool=pool)
             for kind, shapes, kw in gen.shape_product(rng, Abs(ro_txt), gen.Ids('P%d.' % i), pool):
                 K.run_case(s, ro_txt, kind, kw, pretty=rng.random() < 0.5, ctx={'shapes': shapes})
-    K.fuzz(s, 120 if q else 4000, K.kind_weights(1, 1, 0.2), steps=(5, 25),
+    K.fuzz(s, 120 if q else 10000, K.kind_weights(1, 1, 0.2), steps=(5, 25),
            shape_weights=(0.45, 0.3, 0.2, 0.05), selfref=0.15)
-    collections(s, 60 if q else 2000)
+    collections(s, 80 if q else 6000)
     odd_timing_inserts(s, 3 if q else 60)
 
 
